@@ -78,6 +78,9 @@ def random_jobs(pid, n, seed, length):
         kind, ai = traces.CONFIGS[i % 4]
         ops = g.history(g.r.choice(length), p_read=f["p_read"])
         opts = {"theme": "csv-hostile"} if hostile else ({"theme": "random:%d" % (seed * 100000 + i)} if rand else {})
+        if hostile and kind == "csv" and (i // 3) % 2 == 0:
+            # ... half of them on a database opened with another csv dialect (every file the database writes must be in it)
+            opts["csv"] = [{"delimiter": ";"}, {"quotechar": "'"}, {"quoting": 1}][(i // 6) % 3]
         if not hostile and not rand and i % 13 == 4:
             opts = {"theme": "bigint"}        # numbers: integers beyond 2**53 next to one another (regex tables as in the plain theme)
         jobs.append(("r%d" % i, kind, ai, ops, g.battery(), NTK, NFK, opts))
@@ -126,7 +129,7 @@ def random_jobs(pid, n, seed, length):
                    {"op": "insert", "p": g.point(gen.NT - 1), "m": NONE_, "compact": 0}, {"op": "len", "m": NONE_},
                    {"op": "get_measurements"}]
             jobs.append(("huge%d" % i, "csv", i % 2, ops, g.battery(1), NTK, NFK, {"theme": "csv-hostile", "prefill": True, "prefill_points": pre}))
-    if pid in ("C01", "C07", "C10"):           # the same read twice through one handle with foreign writes in between (gen.reread_scenario)
+    if pid in ("C01", "C02", "C03", "C06", "C07", "C10"):           # the same read twice through one handle with foreign writes in between (gen.reread_scenario)
         for i in range(max(40, n // 10)):
             g = gen.Gen(seed * 3331 + i * 19 + int(pid[1:]), ntk=NTK, nfk=NFK, focus=f["weights"], handles=0.0)
             kind, ai = traces.CONFIGS[i % 4]
@@ -311,7 +314,7 @@ def run(pid, level="model_checking"):
     if pid == "C11":
         # wrongly typed arguments (the matrix of C14) as failing calls: the state after the raise is what C11 is about
         bad_paths, _ = export_paths("bad", 6, 4)
-        keep = [p for p in bad_paths if p[-3]["entry"] in ("insert_meas", "insert_meas_stored", "update_static", "update_callable",
+        keep = [p for p in bad_paths if p[-3]["entry"] in ("insert_meas", "insert_meas_stored", "insert_meas_pos", "handle_insert", "handle_insert_multiple", "update_static", "update_callable",
                                                            "update_callable_inplace", "handle_update_callable")]
         rnd = random.Random(rep.seed + 11)
         if len(keep) > (3000 if thorough else 500):
